@@ -59,6 +59,7 @@ impl Ctx {
 }
 
 pub fn dispatch(name: &str, ctx: &Ctx) -> Option<Outcome> {
+    crate::util::set_label(name);
     Some(match name {
         "c01" => if ctx.args.str("part", "freerun") == "serial" { serialchk::run(ctx, "c01") } else { c01::run(ctx) },
         "c11" => serialchk::run(ctx, "c11"),
